@@ -715,19 +715,65 @@ def repaired_candidates(pattern, subs, fixes, std, existing):
     cands = set(std)
     if GHOST in fixes or impl_traits()["skips_ghosts"]:
         cands &= set(existing)
-    if SEPCLS in fixes and has_sep_class(pattern, subs):
+    if SEPCLS in fixes and trigger(SEPCLS, pattern, subs):
         # glob.glob splits such a pattern inside the brackets; a repaired translation would offer
         # every existing path the matcher could accept
         cands = set(existing)
     return cands
 
 
+def trigger(cause, pattern, subs):
+    """Does the pattern have the shape that the open finding describes?  Computed from the PATTERN only (never
+    from what the implementation under test produces), so that a changed compiler that shows the symptom of a
+    known finding on a pattern outside that finding's extent is not attributed to it (and not suppressed by
+    KNOWN_FINDINGS.json).  findings.d/C17-D5{a,b,d,f,g}.json describe the extents."""
+    toks = py_tokens(pattern)
+    used = set(names_of(pattern))
+    if cause == NEG:
+        # D5a: a negated class, in the pattern or in a used sub-pattern
+        texts = [toks] + [py_tokens(v) for n, v in subs.items() if n in used and v]
+        return any(t.startswith("C!") for ts in texts for t in ts)
+    if cause == DIRS:
+        # D5b: the last token is not `*` / a first-occurrence default named wildcard / `**` / a separator
+        if not toks or pattern.endswith("/"):
+            return False
+        last = toks[-1]
+        if last in ("S", "D"):
+            return False
+        if last.startswith("N"):
+            name = last[1:]
+            first = toks.index(last) == len(toks) - 1
+            return not (first and subs.get(name, "*") == "*")
+        return True
+    if cause == EMPTY:
+        # D5d: the last component can be empty: two or more neighbouring star-like tokens at the end, a `**/`
+        # right before the trailing star-like token(s), or a back-reference among them
+        run = []
+        for t in reversed(toks):
+            if t == "S" or t.startswith("N"):
+                run.append(t)
+            else:
+                break
+        if not run:
+            return False
+        before = toks[:len(toks) - len(run)]
+        backref = any(t.startswith("N") and (t in before or run.count(t) > 1) for t in run)
+        return len(run) >= 2 or (bool(before) and before[-1] == "R") or backref
+    if cause == SUBREC:
+        return has_recursive_sub(pattern, subs)
+    if cause == SEPCLS:
+        return has_sep_class(pattern, subs)
+    return True     # NEWLINE, GHOST: fixed in /repo, a regression is reported, not suppressed
+
+
 def repaired_regex(pattern, subs, fixes):
-    """The regex the implementation would use if the hypothetical repairs in `fixes` were in place."""
+    """The regex the implementation would use if the hypothetical repairs in `fixes` were in place.  A repair
+    is only applied to a pattern inside the extent of its finding (`trigger`)."""
     from stepup.core.nglob import convert_nglob_to_regex
+    fixes = {c for c in fixes if trigger(c, pattern, subs)}
     flags = impl_traits()["flags"]
     nm = names_of(pattern)
-    if SUBREC in fixes and has_recursive_sub(pattern, subs) and len(nm) == len(set(nm)):
+    if SUBREC in fixes and len(nm) == len(set(nm)):
         rx_text = convert_nglob_to_regex(expand_subs(pattern, subs), {})
     else:
         rx_text = convert_nglob_to_regex(pattern, subs)
@@ -740,7 +786,7 @@ def repaired_regex(pattern, subs, fixes):
     if NEWLINE in fixes:
         flags |= re.DOTALL
     if DIRS in fixes:
-        if not pattern.endswith("/") and not rx_text.endswith("/?") and not rx_text.endswith(".*"):
+        if not rx_text.endswith("/?"):
             rx_text += "/?"
     return re.compile(rx_text, flags)
 
